@@ -1,0 +1,45 @@
+//go:build verif
+
+// Contracts for the verification machinery in /verif (comment-only; compiled only with -tags verif).
+// C46. The spec functions below are written from the RLP definition (canonical form), not from the code:
+// rlp_hdr_ok says that a canonical item header starts at index i; rlp_isstr / rlp_ds / rlp_sz are the
+// item's kind, the index of its payload and the payload length.
+package rlp
+
+//@ spec rlp_nlen(inp, i) = ite(inp[i] <= 0xbf, int(inp[i] - 0xb7), int(inp[i] - 0xf7))
+//@ spec rlp_lenval(inp, j, n) = ite(n == 1, uint64(inp[j]), ite(n == 2, uint64(inp[j]) << 8 | uint64(inp[j + 1]), ite(n == 3, uint64(inp[j]) << 16 | uint64(inp[j + 1]) << 8 | uint64(inp[j + 2]), ite(n == 4, uint64(inp[j]) << 24 | uint64(inp[j + 1]) << 16 | uint64(inp[j + 2]) << 8 | uint64(inp[j + 3]), ite(n == 5, uint64(inp[j]) << 32 | uint64(inp[j + 1]) << 24 | uint64(inp[j + 2]) << 16 | uint64(inp[j + 3]) << 8 | uint64(inp[j + 4]), ite(n == 6, uint64(inp[j]) << 40 | uint64(inp[j + 1]) << 32 | uint64(inp[j + 2]) << 24 | uint64(inp[j + 3]) << 16 | uint64(inp[j + 4]) << 8 | uint64(inp[j + 5]), ite(n == 7, uint64(inp[j]) << 48 | uint64(inp[j + 1]) << 40 | uint64(inp[j + 2]) << 32 | uint64(inp[j + 3]) << 24 | uint64(inp[j + 4]) << 16 | uint64(inp[j + 5]) << 8 | uint64(inp[j + 6]), ite(n == 8, uint64(inp[j]) << 56 | uint64(inp[j + 1]) << 48 | uint64(inp[j + 2]) << 40 | uint64(inp[j + 3]) << 32 | uint64(inp[j + 4]) << 24 | uint64(inp[j + 5]) << 16 | uint64(inp[j + 6]) << 8 | uint64(inp[j + 7]), uint64(0)))))))))
+//@ spec rlp_short(inp, i) = inp[i] <= 0xb7 || (inp[i] >= 0xc0 && inp[i] <= 0xf7)
+//@ spec rlp_long_ok(inp, i) = i + 1 < len(inp) && ite(rlp_nlen(inp, i) == 1, inp[i + 1] > 55, inp[i + 1] != 0 && rlp_nlen(inp, i) <= len(inp) - (i + 1) && rlp_lenval(inp, i + 1, rlp_nlen(inp, i)) <= uint64(pow2(63) - 1))
+//@ spec rlp_hdr_ok(inp, i) = len(inp) != 0 && i < len(inp) && (rlp_short(inp, i) || rlp_long_ok(inp, i))
+//@ spec rlp_isstr(inp, i) = inp[i] <= 0xbf
+//@ spec rlp_ds(inp, i) = ite(inp[i] <= 0x7f, i, ite(rlp_short(inp, i), i + 1, i + 1 + rlp_nlen(inp, i)))
+//@ spec rlp_sz(inp, i) = ite(inp[i] <= 0x7f, 1, ite(inp[i] <= 0xb7, int(inp[i] - 0x80), ite(rlp_short(inp, i), int(inp[i] - 0xc0), ite(rlp_nlen(inp, i) == 1, int(inp[i + 1]), int(rlp_lenval(inp, i + 1, rlp_nlen(inp, i)))))))
+
+//@ func ReadSize
+//@   mode bv
+//@   requires startIndex >= 0
+//@   nofail
+//@   ensures[C46] iff(err == nil, rlp_hdr_ok(inp, startIndex))
+//@   ensures[C46] err == nil ==> iff(isString, rlp_isstr(inp, startIndex))
+//@   ensures[C46] err == nil ==> dataStartIndex == rlp_ds(inp, startIndex)
+//@   ensures[C46] err == nil ==> dataSize == rlp_sz(inp, startIndex)
+//@   ensures err == nil ==> dataStartIndex >= startIndex && dataStartIndex <= len(inp) && dataSize >= 0 && (dataStartIndex > startIndex || dataSize == 1)
+
+//@ func DecodeString
+//@   mode bv
+//@   requires startIndex >= 0
+//@   nofail
+//@   let ds = rlp_ds(inp, startIndex)
+//@   let sz = rlp_sz(inp, startIndex)
+//@   let canon = rlp_hdr_ok(inp, startIndex) && rlp_isstr(inp, startIndex) && !(sz == 1 && ds != startIndex && inp[ds] <= 0x7f) && sz <= len(inp) - ds
+//@   ensures[C46] iff(err == nil, canon)
+//@   ensures[C46] err == nil ==> len(str) == sz && bytesRead == ds + sz - startIndex
+//@   ensures[C46] err == nil ==> forall(k, 0, sz, str[k] == inp[ds + k])
+
+//@ func DecodeList
+//@   mode bv
+//@   requires startIndex >= 0
+//@   nofail
+//@   loop 1 invariant dataStartIndex <= itemStartIndex && itemStartIndex <= len(inp) && dataBytesRead == itemStartIndex - dataStartIndex && (dataBytesRead > 0 ==> itemEndIndex == itemStartIndex)
+//@   ensures[C46] err == nil ==> rlp_hdr_ok(inp, startIndex) && !rlp_isstr(inp, startIndex)
+//@   ensures[C46] err == nil ==> bytesRead == rlp_ds(inp, startIndex) + rlp_sz(inp, startIndex) - startIndex && rlp_sz(inp, startIndex) <= len(inp) - rlp_ds(inp, startIndex)
